@@ -439,6 +439,77 @@ func sortedMembers(sp *ssa.Package) []string {
 
 var nondetPkgs = map[string]bool{"time": true, "math/rand": true, "crypto/rand": true, "os": true, "runtime": true, "unsafe": true, "reflect": true, "math/rand/v2": true, "os/exec": true, "syscall": true}
 
+// perCallType: objects of the struct type behind t live for one execution only — every allocation of the type lies in the
+// execution region, and no pointer to such an object is ever stored into a field, a global, a slice, a map or an interface
+// (so it cannot be parked on a function object or in a pool). A store into a field of such an object is not state kept
+// between calls: it is a local variable of the execution that happens to be shared by its steps.
+var perCallCache = map[string]bool{}
+
+func perCallType(p *Prog, t types.Type, reach map[*ssa.Function]bool) bool {
+	n := derefNamed(t)
+	if n == nil {
+		return false
+	}
+	if _, isStruct := n.Underlying().(*types.Struct); !isStruct {
+		return false
+	}
+	key := n.String()
+	if v, ok := perCallCache[key]; ok {
+		return v
+	}
+	isT := func(x types.Type) bool {
+		if pt, ok := x.Underlying().(*types.Pointer); ok {
+			x = pt.Elem()
+		}
+		return types.Identical(x, n)
+	}
+	allocs := 0
+	res := true
+	for _, fn := range p.allFuncsIncludingInit() {
+		for _, b := range fn.Blocks {
+			for _, in := range b.Instrs {
+				switch x := in.(type) {
+				case *ssa.Alloc:
+					if isT(x.Type().(*types.Pointer).Elem()) {
+						if _, isPtrVar := x.Type().(*types.Pointer).Elem().Underlying().(*types.Pointer); isPtrVar {
+							continue // a variable that holds a *T
+						}
+						allocs++
+						if !reach[fn] {
+							res = false
+						}
+					}
+				case *ssa.Store:
+					if isT(x.Val.Type()) {
+						switch x.Addr.(type) {
+						case *ssa.Alloc:
+						default:
+							res = false
+						}
+					}
+				case *ssa.MapUpdate:
+					if isT(x.Value.Type()) {
+						res = false
+					}
+				case *ssa.MakeInterface:
+					if isT(x.X.Type()) {
+						res = false
+					}
+				case *ssa.Send:
+					if isT(x.X.Type()) {
+						res = false
+					}
+				}
+			}
+		}
+	}
+	if allocs == 0 {
+		res = false
+	}
+	perCallCache[key] = res
+	return res
+}
+
 func c13r3(c *Ctx) {
 	const rule = "C13-R3"
 	c.Rule(rule, "execution paths have no hidden state and no source of nondeterminism", 60)
@@ -478,7 +549,7 @@ func c13r3(c *Ctx) {
 						bad = append(bad, "store to package-level variable "+at+" at "+c.P.InstrPos(in))
 					}
 					if fn.Signature.Recv() != nil && strings.HasPrefix(at, "P:"+paramName(fn.Params[0])+".") {
-						if _, isPtr := fn.Params[0].Type().(*types.Pointer); isPtr {
+						if _, isPtr := fn.Params[0].Type().(*types.Pointer); isPtr && !perCallType(c.P, fn.Params[0].Type(), reach) {
 							bad = append(bad, "store to receiver field "+at+" at "+c.P.InstrPos(in)+": state kept between calls")
 						}
 					}
